@@ -77,6 +77,18 @@ def run(ctx):
             ok = all(isinstance(a[k], tuple) and a[k][0] == 'fld' and a[k][2] == nm and util.is_param(a[k][1], 1) for k, nm in ((0, 'from'), (1, 'to')))
         ctx.check(ok, 'R20.2', name + '/limits', b.where(0), b.path, 'the extracted from/to must reach Constraints::new unchanged and in this order')
 
+    # the "unconstrained" meaning of from == to is R07.2a; re-checked here because C20 relies on it
+    from . import C07
+    cc, ib = C07.roles(ctx)
+    from ..absint import Iv
+    for x in (0.0,):
+        outs = C07.interp_centers(prog, cc, [(x, x)] * 6, [(x, x)] * 6)
+        res = set()
+        for o in outs:
+            res |= C07.interp_inside(prog, ib, Iv(-13.0, 13.0), o.ret[0][0], o.ret[1][0])
+        ctx.check(res == {True}, 'R20.2', 'from==to-accepts-all', ib.where(0), ib.path,
+                  'a joint without limits (from = to = 0) must accept every angle, but the membership test answers %s' % sorted(map(str, res)), found=sorted(map(str, res)))
+
     # ---- R20.3
     cm = util.find_one(ctx, suffix='urdf::convert_to_map')
     ins = [(bi, t2) for bi, t2 in cm.calls() if cname(callee_name(t2)) == 'HashMap::insert']
